@@ -1,9 +1,69 @@
 import PyamgV.Driver.Util
-/-! Driver ops of extension task E13 (op names prefixed `ext_`). -/
+import PyamgV.Proofs.C04Loop
+import PyamgV.Proofs.ExtC04Steps
+/-! Driver ops of extension task E13 (op names prefixed `ext_`): the step guards of the five
+constructors (`Model/ExtC04Steps.lean`) and the loop `Coarsen.build` instantiated with them.
+
+Step input token `<in>` per constructor: `rs` = splitting as a string of `0`/`1` (`-` = empty);
+`air` = `<nnz>:<splitting>`; `sa` = `<AggOp.shape[1]>:<B.shape[1]>`; `rn` = `<AggOp.shape[1]>`;
+`pw` = `<P.shape[0]>:<P.shape[1]>`.
+
+* `ext_c04_step <rs|air|sa|rn|pw> <level index> <rows> <blocksize> <in>`: one call of
+  `_extend_hierarchy`; reply `stall`, `proceed <rows> <blocksize>` or `error:<why>`
+* `ext_c04_build <ctor> <max_levels> <max_coarse> <rows0> <blocksize0> <in_0> <in_1> ...`: the loop
+  (`ExtC04.buildC` = `Coarsen.build` with `extend (tableOracle ..)`) with the effective limits, one
+  `<in_k>` per call observed on the real run; reply `rows;blocksizes;reason;calls` -/
 namespace PyamgV.Drv.ExtE13
-open PyamgV PyamgV.Drv
+open PyamgV PyamgV.Drv PyamgV.ExtC04
+
+def parseBits (s : String) : Option (List Bool) :=
+  if s = "-" then some [] else
+  s.toList.mapM fun ch => if ch = '1' then some true else if ch = '0' then some false else none
+
+def parseIn (c s : String) : Option StepIn :=
+  match c, s.splitOn ":" with
+  | "rs", [b] => (parseBits b).map .rs
+  | "air", [n, b] => do
+    let n ← n.toNat?
+    let b ← parseBits b
+    some (.air n b)
+  | "sa", [a, k] => do
+    let a ← a.toNat?
+    let k ← k.toNat?
+    some (.sa a k)
+  | "rn", [a] => a.toNat?.map .rn
+  | "pw", [r, k] => do
+    let r ← r.toNat?
+    let k ← k.toNat?
+    some (.pw r k)
+  | _, _ => none
+
+def blockwiseOf (c : String) : Option Bool :=
+  if c = "rs" ∨ c = "air" then some false
+  else if c = "sa" ∨ c = "rn" ∨ c = "pw" then some true else none
+
+def showOutcome : Outcome → String
+  | .stall => "stall"
+  | .proceed r b => s!"proceed {r} {b}"
+  | .error m => "error:" ++ m
 
 def handle : List String → Option String
+  | ["ext_c04_step", c, idx, rows, bs, inp] =>
+    match idx.toNat?, rows.toNat?, bs.toNat?, parseIn c inp with
+    | some idx, some rows, some bs, some i => some (showOutcome (step ⟨idx, rows, bs⟩ i))
+    | _, _, _, _ => some "error:parse"
+  | "ext_c04_build" :: c :: ml :: mc :: r0 :: b0 :: ins =>
+    match ml.toNat?, mc.toNat?, r0.toNat?, b0.toNat?, ins.mapM (parseIn c), blockwiseOf c with
+    | some ml, some mc, some r0, some b0, some tbl, some bw =>
+      if ml = 0 then some "error:max_levels" else
+      match buildC bw (tableOracle tbl.toArray) ml mc ml ⟨0, r0, b0⟩ with
+      | [] => some "error:empty"
+      | last :: rest =>
+        let lv := (last :: rest).reverse
+        let stop := C04.stopOf ml mc (rest.length + 1) (nodes bw last)
+        some (showNats (lv.map (·.rows)).toArray ++ ";" ++ showNats (lv.map (·.bs)).toArray ++ ";" ++
+          C04.stopName stop ++ ";" ++ toString (rest.length + C04.extraCall stop))
+    | _, _, _, _, _, _ => some "error:parse"
   | _ => none
 
 end PyamgV.Drv.ExtE13
